@@ -3581,6 +3581,11 @@ static Token *function(Token *tok, Type *basety, VarAttr *attr) {
       fn->is_inline_only = false;
       fn->is_static = false;
     }
+
+    // A block-scope declaration hides an object of the same name
+    // declared in an enclosing block.
+    if (scope->next)
+      push_scope(name_str)->var = fn;
   } else {
     if (scope->next == NULL) {
       VarScope *sc = hashmap_get2(&scope->vars, ty->name->loc, ty->name->len);
